@@ -244,6 +244,28 @@ class Ctx:
         self.theorem_info[vfile] = info
         return info
 
+    def coqchk(self, group, modules, timeout=2400):
+        """Independent re-check of the compiled property modules (and everything they depend on) with coqchk;
+        returns dict(ok, axioms, summary). Used by thorough tiers only (30 s .. minutes)."""
+        g = os.path.join(VERIF, "coq", group)
+        lib = os.path.join(VERIF, "coq", "lib")
+        gname = self.group_logical(group)
+        extra = []
+        proj = open(os.path.join(g, "_CoqProject")).read()
+        for m in re.finditer(r"-Q\s+(\.\./\S+)\s+(\S+)", proj):
+            if m.group(2) != "FwdLib":
+                extra += ["-Q", os.path.join(g, m.group(1)), m.group(2)]
+        cmd = ["coqchk", "-silent", "-o", "-Q", lib, "FwdLib", "-Q", g, gname] + extra + \
+              ["%s.%s" % (gname, m) for m in modules]
+        rc, log = sh(cmd, cwd=g, timeout=timeout)
+        flat = " ".join(log.split())
+        m = re.search(r"\* Axioms: (.*?) \* Constants/Inductives relying on type-in-type: (.*?) \* Constants/Inductives relying on unsafe \(co\)fixpoints: (.*?) \* Inductives whose positivity is assumed: (.*?)$", flat)
+        res = {"ok": rc == 0, "cmd": " ".join(cmd), "axioms": None, "summary": flat[-600:]}
+        if m:
+            res.update(axioms=m.group(1).strip(), type_in_type=m.group(2).strip(),
+                       unsafe_fixpoints=m.group(3).strip(), positivity_assumed=m.group(4).strip())
+        return res
+
     def coq_eval_shards(self, group, d, shards, idents=("M", "P"), timeout=900, jobs=16):
         """coqc each shard (a cases .v file in directory d). Returns {shard: {ident: 'text' or None}, ...}
         plus key '_errors': list of (shard, log)."""
